@@ -1,8 +1,9 @@
 From Coq Require Import extraction.Extraction extraction.ExtrOcamlBasic.
-From TU Require Import Base BPE_Model C03_Model MsgPack_Model C03_File.
+From TU Require Import Base BPE_Model C03_Model MsgPack_Model C03_File C03_Limit.
 (* exact on the ids; the bytes of the merge file the tokenizer was built from and the real loader's reading of
    them (fields 1, 2 of the implementation output) must be what the model reads / would write (C03_File.v) *)
-Definition run := run_C03.
-Definition check := check_C03f.
-Definition agree (inp m i : val) : bool := agree_C03f inp m i.
+(* the optional third field of the input is the number of merges a vocabulary limit keeps (C03_Limit.v) *)
+Definition run := run_C03l.
+Definition check := check_C03l.
+Definition agree (inp m i : val) : bool := agree_C03l inp m i.
 Extraction "model.ml" run check agree.
